@@ -3,5 +3,8 @@ high votes the replicas report. The rule that pins what a replica records as its
 recorded before the backup is the vote that is signed); it is run with C02 as well, so that a replica that keeps a
 stale high vote (and therefore under-reports the payload it voted for last) is a C02 violation."""
 from .c03 import rule_recorded_vote
+# the sub-quorum the rule compares against is n-3f of the schedule's TOTAL weight (seed S6C02: Schedule::subquorum_threshold
+# computed from the leaders' weight only)
+from .c07 import rule_formulas
 
-RULES = [("C03.6", rule_recorded_vote)]
+RULES = [("C03.6", rule_recorded_vote), ("C07.1", rule_formulas)]
